@@ -44,7 +44,7 @@ class ToyBinary:
     def dG(self, x, T, precPhase=None):
         p = self._p(precPhase)
         xb = p["xb"]
-        x = np.asarray(x, dtype=float)
+        x = np.clip(np.asarray(x, dtype=float), 1e-30, 1 - 1e-12)   # the model clamps depleted matrices to 0: keep the ideal-solution logarithm finite
         T = np.asarray(T, dtype=float)
         xe = self.xeq(T, precPhase)
         with np.errstate(divide="ignore", invalid="ignore"):
@@ -150,7 +150,7 @@ class ToyMulti:
 
     def dG(self, x, T, precPhase=None):
         p = self._p(precPhase)
-        x = np.asarray(x, dtype=float)
+        x = np.clip(np.asarray(x, dtype=float), 1e-30, 1.0)
         with np.errstate(divide="ignore", invalid="ignore"):
             return R_GAS * T * (np.sum(p["xb"] * np.log(x), axis=-1) - self.lnK(T, precPhase))
 
